@@ -7,7 +7,11 @@ Decided clauses:
         constant propagation for N = 16, 32, 64), all loads feeding the returned value.
   R14.2 wipe: sodium_memzero hands exactly its (pointer, length) to a non-elidable primitive;
         sodium_stackzero wipes a local of the requested length the same way.
-NOT decided: the -1/0/1 value of sodium_compare, carry propagation of increment/add/sub (also in
+  R14.4 (E12 known-bits, contradiction rule) no carry of sodium_increment / sodium_add / sodium_sub /
+        sodium_compare (C bodies) is identically zero.
+  R14.5 carry-chain continuity: in the byte loops of sodium_increment / add / sub the loop-carried carry
+        is recomputed from its previous value (data dependence of the next carry on the incoming one).
+NOT decided: the -1/0/1 value of sodium_compare, the values of the carries of increment/add/sub (and
 the inline-asm fast paths).
 """
 from .. import deps
@@ -203,3 +207,11 @@ def run(ctx, chk):
         ok = len(ev) == 1 and T.root(ev[0].args[0])[0] in ("alloca", "call") and ev[0].args[1] == ("arg", 0)
         chk.ob("R14.2", sz, "sodium_stackzero wipes a stack object of the requested length through sodium_memzero", ok,
                loc=sz.loc(p.end_iid), path=None if ok else p, key="R14.2 sodium_stackzero")
+    # ---- R14.4 ---------------------------------------------------------------------------------------------------
+    from .. import knownbits
+    knownbits.dead_carry_rule(prog, chk, "R14.4", ("sodium/utils.c",), floor=5)
+    # ---- R14.5 carry / borrow chains are continuous ------------------------------------------------------------------------
+    # In the byte loops of sodium_increment / sodium_add / sodium_sub the carry is the one loop-carried scalar besides the
+    # index: its next value must be computed from its current value (a borrow taken from a[i] - b[i] alone forgets an incoming
+    # borrow whenever the two bytes are equal).
+    knownbits.carry_continuity_rule(prog, chk, "R14.5", [("sodium_increment", None), ("sodium_add", None), ("sodium_sub", None)], floor=3)
